@@ -631,6 +631,9 @@ func (w *World) contentHash(label string) *data.ContentHash {
 		return &data.ContentHash{Raw: &data.ContentHash_Raw{Hash: h, DigestAlgorithm: 1, FileExtension: pickOf(w, label+"sibext", []string{"pdf", "csv", "json", "rdf", "txt"})}}
 	}
 	ch := w.contentHashPool(label)
+	if len(w.bulkGraphs) > 0 && w.chance(label+"?bulk", 20) {
+		ch = &data.ContentHash{Graph: w.graphHash(label + "bg")}
+	}
 	if ch.Raw != nil {
 		w.lastDigest = ch.Raw.Hash
 	} else {
@@ -657,6 +660,10 @@ func (w *World) contentHashPool(label string) *data.ContentHash {
 }
 
 func (w *World) graphHash(label string) *data.ContentHash_Graph {
+	if len(w.bulkGraphs) > 0 && w.chance(label+"?bulk", 35) {
+		g := *w.bulkGraphs[w.intn(label+"bulk", len(w.bulkGraphs))]
+		return &g
+	}
 	n := 6
 	if w.Profile != nil && w.Profile.HashPool > 0 {
 		n = w.Profile.HashPool
